@@ -374,7 +374,42 @@ def b_min(ex, st, fi, args, kw, line):
     yield st, sym.imin(args[0], args[1])
 
 
+def _extreme_of_genexp(ex, st, fi, g, line):
+    """max/min(ELT for V in LIST): attained by some element of the list
+    (which must be non-empty); the bound against the other elements is not
+    modelled"""
+    node = g.node
+    gen = node.generators[0]
+    if len(node.generators) != 1 or gen.ifs or \
+            not isinstance(gen.target, ast.Name):
+        raise Unsupported('max/min generator at %d' % line)
+    lst = ex.ev1(gen.iter, st, fi)
+    if not isinstance(lst, TokList):
+        raise Unsupported('max/min over %r' % (lst,))
+    ex.prove(st, 'safe:max-of-empty@%d' % line, zint(lst.length()) >= 1,
+             line)
+    tmp = TokList(list(lst.segs))
+    ex.normalise(tmp, st)
+    e = tmp.segs[0].mk(st)
+    return _eval_elt(ex, st, fi, gen.target.id, node.elt, e)
+
+
+def _eval_elt(ex, st, fi, var, elt, val):
+    saved = st.env.get(var, _MISSING)
+    st.env[var] = val
+    try:
+        return ex.ev1(elt, st, fi)
+    finally:
+        if saved is _MISSING:
+            del st.env[var]
+        else:
+            st.env[var] = saved
+
+
 def b_max(ex, st, fi, args, kw, line):
+    if len(args) == 1 and isinstance(args[0], GenExp):
+        yield st, _extreme_of_genexp(ex, st, fi, args[0], line)
+        return
     args = _nums(ex, st, args, line)
     if len(args) != 2:
         raise Unsupported('min/max arity')
@@ -878,6 +913,18 @@ def str_count(st, s, code, lo, hi):
     st.assume(n == 0) if False else None
     st.assume((n == 0) == zbool(forall(lo, hi,
                                        lambda k: s.at(k) != zint(code))))
+    # a prefix contains at most as many occurrences as the whole string,
+    # and counting is monotone in the upper bound
+    total = count_f(s.arr, zint(code), zint(lo), zint(s.ln))
+    st.assume(Implies(zint(hi) <= zint(s.ln), n <= total))
+    # counting is monotone in the upper bound: instantiated against the
+    # earlier count terms over the same string / character / lower bound
+    key = ('$count-mono', s.arr.sexpr(), str(code), str(lo))
+    reg = st.ghost.setdefault(key, [])
+    for h1, n1 in reg:
+        st.assume(Implies(zint(h1) <= zint(hi), n1 <= n))
+        st.assume(Implies(zint(hi) <= zint(h1), n <= n1))
+    reg.append((hi, n))
     return n
 
 
@@ -1009,6 +1056,7 @@ def str_method(ex, st, fi, o, name, args, kw, line):
             yield st, r
             return
         res = fresh_seq('str', 'join', st.assume)
+        res.tag = 'raw'     # provenance unknown: treated as unescaped text
         if isinstance(v, TokList):
             n = v.length()
             st.assume(Implies(zint(n) == 0, res.ln == 0))
